@@ -178,7 +178,7 @@ def cross_check(batch, timeout_s=300, logic='ALL', tier='thorough', seed=0, quic
         bvq, rest = [], []
         for item in b:
             txt = smt2_of(item[1])
-            (rest if ('FloatingPoint' in txt or 'fp.' in txt or 'RoundingMode' in txt or 'Int' in txt.replace('BitVec', '')) else bvq).append(item)
+            (rest if ('FloatingPoint' in txt or 'fp.' in txt or 'to_fp' in txt or 'RoundingMode' in txt or 'Int' in txt.replace('BitVec', '')) else bvq).append(item)
         return bvq, rest
     per = 10 if tier == 'quick' else 30
     for label, cmd, b in (('z3old', ['/usr/bin/z3', '-t:%d' % (per * 1000)], b1),
